@@ -382,7 +382,8 @@ def run_check(pid, tier='quick', seed=0, keep=False, only=None):
     udir = os.path.join(VERIF, 'units', pid)
     meta = json.load(open(os.path.join(udir, 'unit.json')))
     work = tempfile.mkdtemp(prefix='verif_%s_' % pid, dir=SCRATCH_ROOT)
-    ev_path = os.path.join(VERIF, 'evidence', pid + '.json')
+    # evidence always goes to /verif/evidence; experiments on modified trees (seeded changes) redirect it
+    ev_path = os.path.join(os.environ.get('VERIF_EVIDENCE_DIR', os.path.join(VERIF, 'evidence')), pid + '.json')
     os.makedirs(os.path.dirname(ev_path), exist_ok=True)
     try:
         os.remove(ev_path)
